@@ -265,7 +265,7 @@ def main(tier, replay=None):
         runs.append(("mc", cfg("lvl", 7, 1, 7, "OnePerLevel"), None, None,
                      "exhaustive: all chains of 1..7 operators over one operator per published level"))
         runs.append(("mc", cfg("flat", 5, 1, 5), None, None, "exhaustive: all chains of 1..5 operators"))
-        runs.append(("mc", cfg("grp", 3, 3, 4), None, None, "exhaustive: <=4 operators, <=3 per sub-chain, parentheses depth <=3"))
+        runs.append(("mc", cfg("grp", 3, 2, 4), None, None, "exhaustive: <=4 operators, <=3 per sub-chain, one level of parentheses"))
         runs.append(("sim", cfg("sim", 10, 3, 10), 6000, 60, "simulation: chains <=10 operators, parentheses depth <=3"))
 
     states = trans = 0
